@@ -122,6 +122,30 @@ struct Merged {
     virtual_ns: u128,
     /// digest over (unit, event digest) pairs in unit order: the determinism witness
     log_digest: Vec<(u64, u64)>,
+    crashes: Vec<(u64, String)>,
+}
+
+static UNIT_STARTED: std::sync::atomic::AtomicU64 = std::sync::atomic::AtomicU64::new(0);
+
+fn now_ms() -> u64 {
+    // wall clock of the harness only (watchdog); never visible to a simulation
+    std::time::SystemTime::now()
+        .duration_since(std::time::UNIX_EPOCH)
+        .map(|d| d.as_millis() as u64)
+        .unwrap_or(0)
+}
+
+/// Wall-clock watchdog of the harness itself: a unit that runs longer than the limit makes the
+/// process abort, which the driver reports as a crash (hang) of that unit.
+fn start_watchdog(limit_s: u64) {
+    std::thread::spawn(move || loop {
+        std::thread::sleep(std::time::Duration::from_millis(500));
+        let started = UNIT_STARTED.load(std::sync::atomic::Ordering::SeqCst);
+        if started != 0 && now_ms().saturating_sub(started) > limit_s * 1000 {
+            eprintln!("watchdog: unit exceeded {limit_s}s, aborting the worker");
+            std::process::abort();
+        }
+    });
 }
 
 /// Worker: runs units [from, to) with stride and prints one JSON document
@@ -129,6 +153,9 @@ fn worker(prop: &dyn Property, seed: u64, tier: Tier, from: u64, to: u64, stride
     let mut m = Merged::default();
     let mut unit = from;
     while unit < to {
+        // progress marker: if this process dies (stack overflow, abort) the driver knows where
+        println!("UNIT {unit}");
+        UNIT_STARTED.store(now_ms(), std::sync::atomic::Ordering::SeqCst);
         let mut unit_log = Digest::new();
         prop.run_unit(seed, unit, tier, &mut |r: RunReport| {
             if let Some(reason) = r.discarded {
@@ -178,6 +205,10 @@ fn worker(prop: &dyn Property, seed: u64, tier: Tier, from: u64, to: u64, stride
 }
 
 fn merge(into: &mut Merged, w: &J) {
+    if let Some(c) = w.get("crash") {
+        into.crashes.push((c["unit"].as_u64().unwrap_or(0), c["status"].as_str().unwrap_or("").to_string()));
+        return;
+    }
     into.runs += w["runs"].as_u64().unwrap_or(0);
     into.discarded += w["discarded"].as_u64().unwrap_or(0);
     if let Some(m) = w["discard_reasons"].as_object() {
@@ -280,17 +311,23 @@ fn spawn_workers(
         let out = child
             .wait_with_output()
             .map_err(|e| format!("wait worker: {e}"))?;
-        if !out.status.success() {
-            return Err(format!(
-                "worker exited with {:?}: {}",
-                out.status.code(),
-                String::from_utf8_lossy(&out.stdout)
-                    .lines()
-                    .last()
-                    .unwrap_or("")
-            ));
-        }
         let text = String::from_utf8_lossy(&out.stdout);
+        if !out.status.success() {
+            // the process under test died: report it as a crash of the unit it was running
+            let last_unit = text
+                .lines()
+                .rev()
+                .find_map(|l| l.strip_prefix("UNIT ").and_then(|n| n.trim().parse::<u64>().ok()));
+            match last_unit {
+                Some(unit) => {
+                    outs.push(json!({"crash": {"unit": unit, "status": format!("{:?}", out.status)}}));
+                    continue;
+                }
+                None => {
+                    return Err(format!("worker exited with {:?} before starting any unit", out.status));
+                }
+            }
+        }
         let line = text.lines().last().unwrap_or("");
         let j: J = serde_json::from_str(line).map_err(|e| format!("worker output: {e}: {line:.200}"))?;
         outs.push(j);
@@ -332,6 +369,16 @@ pub fn run_batch(prop: &dyn Property, tier: Tier) -> i32 {
     let mut m = Merged::default();
     for o in &outs {
         merge(&mut m, o);
+    }
+    for (unit, status) in std::mem::take(&mut m.crashes) {
+        m.violations.push((
+            unit,
+            Violation {
+                class: "process_crash".into(),
+                detail: format!("the worker process died ({status}) while running unit {unit}"),
+            },
+            json!({"rerun_unit": unit, "verif_seed": seed, "tier": tier.name()}),
+        ));
     }
     m.violations.sort_by_key(|(u, _, _)| *u);
     m.log_digest.sort();
@@ -384,24 +431,29 @@ pub fn run_batch(prop: &dyn Property, tier: Tier) -> i32 {
         if !seen_sig.insert(sig.clone()) || seen_sig.len() > 3 {
             continue;
         }
-        let (min_case, steps) = if unit == u64::MAX {
+        let (min_case, steps) = if unit == u64::MAX || v.class == "process_crash" {
             (case.clone(), 0)
         } else {
             prop.minimise(&case, &v.class)
         };
         // re-derive the detail from the minimised case
-        let detail = match prop.replay(&min_case) {
-            Ok(Some(v2)) if v2.class == v.class => v2.detail,
-            _ => v.detail.clone(),
+        let detail = if v.class == "process_crash" {
+            v.detail.clone()
+        } else {
+            match prop.replay(&min_case) {
+                Ok(Some(v2)) if v2.class == v.class => v2.detail,
+                _ => v.detail.clone(),
+            }
         };
-        let path = root.join("replays").join(format!(
+        let replay_dir = std::env::var("VERIF_REPLAY_DIR").map(PathBuf::from).unwrap_or_else(|_| root.join("replays"));
+        let path = replay_dir.join(format!(
             "{}-seed{}-unit{}-{}.json",
             prop.id(),
             seed,
             if unit == u64::MAX { "post".to_string() } else { unit.to_string() },
             v.class
         ));
-        let _ = std::fs::create_dir_all(root.join("replays"));
+        let _ = std::fs::create_dir_all(&replay_dir);
         let replay = json!({
             "property": prop.id(),
             "engine": prop.engine(),
@@ -479,8 +531,10 @@ pub fn run_batch(prop: &dyn Property, tier: Tier) -> i32 {
         "wall_s": wall,
         "violations": if exit == 0 { 0 } else { seen_sig.len() },
     });
-    let ev_path = root.join("evidence").join(format!("{}.json", prop.id()));
-    let _ = std::fs::create_dir_all(root.join("evidence"));
+    // seeded-change runs (tools/run_against.sh) must not overwrite the evidence of the real tree
+    let ev_dir = std::env::var("VERIF_EVIDENCE_DIR").map(PathBuf::from).unwrap_or_else(|_| root.join("evidence"));
+    let ev_path = ev_dir.join(format!("{}.json", prop.id()));
+    let _ = std::fs::create_dir_all(&ev_dir);
     if let Err(e) = std::fs::write(&ev_path, serde_json::to_string_pretty(&evidence).unwrap()) {
         eprintln!("harness error: cannot write evidence: {e}");
         return 2;
@@ -497,6 +551,34 @@ pub fn run_batch(prop: &dyn Property, tier: Tier) -> i32 {
     );
     let _ = std::io::stdout().flush();
     exit
+}
+
+/// Replay of a crash: run that single unit again in a child process
+fn rerun_unit(prop_id: &str, case: &J, unit: u64) -> Result<Option<Violation>, String> {
+    let exe = std::env::current_exe().map_err(|e| e.to_string())?;
+    let seed = case["verif_seed"].as_u64().unwrap_or(1);
+    let tier = case["tier"].as_str().unwrap_or("quick");
+    let out = Command::new(exe)
+        .arg("worker")
+        .arg(prop_id)
+        .arg(tier)
+        .arg(seed.to_string())
+        .arg(unit.to_string())
+        .arg((unit + 1).to_string())
+        .arg("1")
+        .stdin(Stdio::null())
+        .stdout(Stdio::piped())
+        .stderr(Stdio::null())
+        .output()
+        .map_err(|e| e.to_string())?;
+    if out.status.success() {
+        Ok(None)
+    } else {
+        Ok(Some(Violation {
+            class: "process_crash".into(),
+            detail: format!("the worker process died ({:?}) while running unit {unit}", out.status),
+        }))
+    }
 }
 
 pub fn main_entry() -> i32 {
@@ -522,9 +604,24 @@ pub fn main_entry() -> i32 {
             let index: u64 = args[5].parse().unwrap();
             let units: u64 = args[6].parse().unwrap();
             let workers: u64 = args[7].parse().unwrap();
-            let out = worker(prop.as_ref(), seed, tier, index, units, workers);
-            println!("{out}");
-            0
+            let id = args[2].clone();
+            start_watchdog(env_u64("VERIF_UNIT_TIMEOUT_S", 40));
+            let h = std::thread::Builder::new()
+                .name("worker".into())
+                .stack_size(64 << 20)
+                .spawn(move || {
+                    let prop = crate::props::lookup(&id).expect("property");
+                    worker(prop.as_ref(), seed, tier, index, units, workers)
+                })
+                .expect("spawn worker thread");
+            let _ = prop;
+            match h.join() {
+                Ok(out) => {
+                    println!("{out}");
+                    0
+                }
+                Err(_) => 3,
+            }
         }
         Some("replay") => {
             let Some(path) = args.get(2) else {
@@ -550,7 +647,12 @@ pub fn main_entry() -> i32 {
                 return 2;
             };
             let want = j["violation"]["class"].as_str().unwrap_or("");
-            match prop.replay(&j["case"]) {
+            let result = if let Some(unit) = j["case"]["rerun_unit"].as_u64() {
+                rerun_unit(prop.id(), &j["case"], unit)
+            } else {
+                prop.replay(&j["case"])
+            };
+            match result {
                 Ok(Some(v)) => {
                     println!("replay: violation class={} detail={}", v.class, v.detail);
                     if v.class == want || want.is_empty() {
@@ -588,6 +690,7 @@ pub fn main_entry() -> i32 {
             }
             0
         }
+        Some("c31-case") => crate::props::c31::child_main(),
         Some("selftest") => crate::props::selftest(&args[2..]),
         _ => {
             eprintln!("usage: verif-sim run|worker|replay|selftest …");
